@@ -130,6 +130,37 @@ pub async fn update_account_key(
 		&url,
 		None,
 	)?;
+	// Which key does the CA hold? When the answer to an earlier roll-over request was lost, it is
+	// already the current one, and a roll-over signed with the superseded key is refused for ever.
+	let old_key_probe = |n: &str, url: &str| {
+		encode_kid(
+			old_key,
+			&old_account_key.signature_algorithm,
+			&account_url,
+			b"",
+			url,
+			n,
+		)
+	};
+	match http::post_jose_no_response(endpoint, &old_key_probe, &account_url).await {
+		Ok(()) => {}
+		Err(HttpError::GenericError(e)) => {
+			return Err(e);
+		}
+		Err(HttpError::ApiError(e)) => {
+			if e.get_acme_type() != AcmeError::AccountDoesNotExist {
+				let account_owned = account.clone();
+				let new_key_probe = set_data_builder_sync!(account_owned, endpoint_name, b"");
+				http::post_jose_no_response(endpoint, &new_key_probe, &account_url)
+					.await
+					.map_err(|_| Error::from(e.to_string()))?;
+				account.debug("the CA already holds the current key");
+				account.update_key_hash(&endpoint_name)?;
+				account.save().await?;
+				return Ok(());
+			}
+		}
+	}
 	let data_builder = |n: &str, url: &str| {
 		encode_kid(
 			old_key,
@@ -140,23 +171,11 @@ pub async fn update_account_key(
 			n,
 		)
 	};
-	let mut res = http::post_jose_no_response(endpoint, &data_builder, &url).await;
-	if let Err(HttpError::ApiError(ref e)) = res {
-		if !matches!(e.get_acme_type(), AcmeError::AccountDoesNotExist) {
-			// The CA may already hold the new key: when the answer to an earlier roll-over request
-			// was lost, the request signed with the superseded key is refused for ever.
-			let account_owned = account.clone();
-			let probe = set_data_builder_sync!(account_owned, endpoint_name, b"");
-			if http::post_jose_no_response(endpoint, &probe, &account_url)
-				.await
-				.is_ok()
-			{
-				account.debug("the CA already holds the current key");
-				res = Ok(());
-			}
-		}
-	}
-	create_account_if_does_not_exist!(res, endpoint, account)?;
+	create_account_if_does_not_exist!(
+		http::post_jose_no_response(endpoint, &data_builder, &url).await,
+		endpoint,
+		account
+	)?;
 	account.update_key_hash(&endpoint_name)?;
 	account.save().await?;
 	account.info(&format!(
